@@ -3,7 +3,9 @@
 package gate
 
 import (
+	"fmt"
 	"net"
+	"os"
 	"sort"
 	"sync"
 	"time"
@@ -47,6 +49,8 @@ type pend struct {
 	when  string   // trig: which anchor ("" first client datagram, "hs" the client's first Handshake packet is on the wire)
 	toSrv bool     // a datagram for the server
 }
+
+var debugNet = os.Getenv("GATE_DEBUG") == "net"
 
 const (
 	dirC2S = 0
@@ -125,6 +129,10 @@ func (n *gnet) SendPacket(p simnet.Packet) error {
 		has = false
 	}
 	data := append([]byte(nil), p.Data...)
+	if debugNet {
+		lv, _, _, _ := levelsOf(data)
+		fmt.Fprintf(os.Stderr, "debug: net t=%v dir=%s idx=%d len=%d levels=%s fault=%v\n", n.now(), dirNames[d], idx, len(data), lv, has)
+	}
 	if d == dirC2S {
 		// towards the server: queued like the other direction, so that the server's reaction to every datagram
 		// can be observed too (the server's simnet link adds no latency of its own)
